@@ -193,6 +193,7 @@ type profile struct {
 	fw   [nFlavours]int
 	osc  bool // live count oscillates between lo and hi
 	cap  bool // never more than hi entries (same-size-grow churn)
+	nan  bool // keep up to hi/3 NaN-keyed entries in the map (key types that have NaNs)
 }
 
 var fwAll = [nFlavours]int{fCollect: 6, fBreak: 2, fDelCur: 4, fDelAll: 1, fDelOther: 4, fInsert: 5, fMixed: 6, fNested: 3, fClear: 1}
@@ -200,12 +201,13 @@ var fwNoGrow = [nFlavours]int{fCollect: 4, fBreak: 1, fDelCur: 3, fDelOther: 3, 
 var fwClear = [nFlavours]int{fCollect: 4, fBreak: 1, fDelCur: 2, fDelOther: 2, fInsert: 4, fMixed: 4, fNested: 2, fClear: 6}
 
 var profiles = []profile{
-	{"mixed", [nOps]int{oInsNew: 60, oAssign: 50, oUpdLive: 30, oDelLive: 36, oDelRand: 20, oLook: 44, oLook2: 44, oLen: 12, oClear: 1, oRemake: 1, oRange: 36, oDump: 6, oNil: 6, oUnhash: 10}, fwAll, false, false},
-	{"osc", [nOps]int{oInsNew: 0, oAssign: 16, oUpdLive: 16, oDelLive: 0, oDelRand: 8, oLook: 20, oLook2: 20, oLen: 4, oClear: 0, oRemake: 0, oRange: 14, oDump: 3, oNil: 1, oUnhash: 3}, fwAll, true, false},
-	{"churn", [nOps]int{oInsNew: 0, oAssign: 6, oUpdLive: 6, oDelLive: 0, oDelRand: 4, oLook: 8, oLook2: 8, oLen: 2, oClear: 0, oRemake: 0, oRange: 10, oDump: 1, oNil: 0, oUnhash: 1}, fwNoGrow, true, true},
-	{"iter", [nOps]int{oInsNew: 56, oAssign: 24, oUpdLive: 12, oDelLive: 28, oDelRand: 8, oLook: 12, oLook2: 12, oLen: 8, oClear: 1, oRemake: 1, oRange: 160, oDump: 12, oNil: 4, oUnhash: 4}, fwAll, false, false},
-	{"fill", [nOps]int{oInsNew: 160, oAssign: 24, oUpdLive: 16, oDelLive: 24, oDelRand: 8, oLook: 24, oLook2: 24, oLen: 8, oClear: 0, oRemake: 0, oRange: 12, oDump: 3, oNil: 1, oUnhash: 4}, fwAll, false, false},
-	{"clear", [nOps]int{oInsNew: 120, oAssign: 24, oUpdLive: 8, oDelLive: 20, oDelRand: 8, oLook: 20, oLook2: 20, oLen: 8, oClear: 6, oRemake: 2, oRange: 40, oDump: 6, oNil: 1, oUnhash: 4}, fwClear, false, false},
+	{"mixed", [nOps]int{oInsNew: 60, oAssign: 50, oUpdLive: 30, oDelLive: 36, oDelRand: 20, oLook: 44, oLook2: 44, oLen: 12, oClear: 1, oRemake: 1, oRange: 36, oDump: 6, oNil: 6, oUnhash: 10}, fwAll, false, false, false},
+	{"osc", [nOps]int{oInsNew: 0, oAssign: 16, oUpdLive: 16, oDelLive: 0, oDelRand: 8, oLook: 20, oLook2: 20, oLen: 4, oClear: 0, oRemake: 0, oRange: 14, oDump: 3, oNil: 1, oUnhash: 3}, fwAll, true, false, false},
+	{"churn", [nOps]int{oInsNew: 0, oAssign: 6, oUpdLive: 6, oDelLive: 0, oDelRand: 4, oLook: 8, oLook2: 8, oLen: 2, oClear: 0, oRemake: 0, oRange: 10, oDump: 1, oNil: 0, oUnhash: 1}, fwNoGrow, true, true, false},
+	{"nanchurn", [nOps]int{oInsNew: 0, oAssign: 6, oUpdLive: 6, oDelLive: 0, oDelRand: 4, oLook: 8, oLook2: 8, oLen: 2, oClear: 0, oRemake: 0, oRange: 14, oDump: 1, oNil: 0, oUnhash: 1}, fwNoGrow, true, true, true},
+	{"iter", [nOps]int{oInsNew: 56, oAssign: 24, oUpdLive: 12, oDelLive: 28, oDelRand: 8, oLook: 12, oLook2: 12, oLen: 8, oClear: 1, oRemake: 1, oRange: 160, oDump: 12, oNil: 4, oUnhash: 4}, fwAll, false, false, false},
+	{"fill", [nOps]int{oInsNew: 160, oAssign: 24, oUpdLive: 16, oDelLive: 24, oDelRand: 8, oLook: 24, oLook2: 24, oLen: 8, oClear: 0, oRemake: 0, oRange: 12, oDump: 3, oNil: 1, oUnhash: 4}, fwAll, false, false, false},
+	{"clear", [nOps]int{oInsNew: 120, oAssign: 24, oUpdLive: 8, oDelLive: 20, oDelRand: 8, oLook: 20, oLook2: 20, oLen: 8, oClear: 6, oRemake: 2, oRange: 40, oDump: 6, oNil: 1, oUnhash: 4}, fwClear, false, false, false},
 }
 
 type spec struct {
@@ -216,7 +218,7 @@ type spec struct {
 	lo, hi       int
 	ops          int
 	seed         uint64
-	flags        int // 1: avoid clear on grown maps (open finding); 2: scattered int keys; 4: fixed probe script
+	flags        int // 1: avoid clear on grown maps (open finding); 2: scattered int keys; 4: fixed probe script; 8: trace; 16: never insert NaN keys
 }
 
 // clear is avoided (flags&1) on map objects that ever held more entries than this
@@ -249,6 +251,7 @@ type vmT struct {
 	lastB    int
 	lastSS   bool
 	trace    bool
+	nanIdx   []int // pool indices whose key is NaN-like
 }
 
 func (v *vmT) mix(x int) { v.h = (v.h ^ uint64(x)) * 1099511628211 }
@@ -295,6 +298,10 @@ func (v *vmT) noteInsert() {
 		if isThreshold(n - 1) {
 			v.force = 3 // the table has just started to grow: iterate soon
 		}
+	}
+	if len(v.active) == 0 && v.sp.prof.nan && v.force == 0 {
+		// any insert may have started a same-size grow (not predictable from outside): iterate right away
+		v.force = 1
 	}
 }
 
@@ -503,6 +510,9 @@ func (v *vmT) runaway(l *loopRec) {
 func (v *vmT) onYield(l *loopRec, ki, x int, intact bool) int {
 	l.yields++
 	v.st.yields++
+	if v.trace {
+		println("T", v.op, "yield", ki, x, intact)
+	}
 	if l.yields > l.startLen+l.inserts {
 		v.runaway(l)
 	}
@@ -731,7 +741,13 @@ func sortEnts(a []ent) {
 
 // ---- key choice helpers (top level only: sequential PRNG allowed)
 
-func (v *vmT) randKey() int { return v.r.n(v.sp.pool) }
+func (v *vmT) randKey() int {
+	i := v.r.n(v.sp.pool)
+	if v.sp.flags&16 != 0 && v.d.NaN(i) {
+		i = (i + 1) % v.sp.pool
+	}
+	return i
+}
 
 func (v *vmT) liveKey() int {
 	if len(v.sh.e) == 0 {
@@ -813,7 +829,7 @@ func (v *vmT) step() {
 	if sp.prof.osc {
 		if v.rising && n >= sp.hi {
 			v.rising = false
-		} else if !v.rising && n <= sp.lo {
+		} else if !v.rising && len(v.sh.e) <= sp.lo {
 			v.rising = true
 			if !sp.prof.cap {
 				// sometimes start over with a fresh map so that every lower growth threshold is crossed again
@@ -853,7 +869,9 @@ func (v *vmT) step() {
 	full := sp.prof.cap && n >= sp.hi
 	switch o {
 	case oInsNew:
-		if full {
+		if sp.prof.nan && sp.flags&16 == 0 && len(v.nanIdx) > 0 && len(v.sh.nans) < sp.hi/3 && v.r.n(6) == 0 {
+			v.assign(v.nanIdx[v.r.n(len(v.nanIdx))], v.r.n(1000000))
+		} else if full {
 			v.assign(v.liveKey(), v.r.n(1000000))
 		} else {
 			v.assign(v.newKey(), v.r.n(1000000))
@@ -956,6 +974,11 @@ func run(d driver, sp *spec) int {
 	v.trace = traceOn
 	if sp.pool > d.KeyMax() {
 		sp.pool = d.KeyMax()
+	}
+	for i := 0; i < sp.pool && i < 256; i++ {
+		if d.NaN(i) {
+			v.nanIdx = append(v.nanIdx, i)
+		}
 	}
 	v.remake(-1)
 	v.st.remakes = 0
